@@ -214,7 +214,7 @@ def main():
                 res.oracle_fail.append({'group': 'declaration', 'case': srcs.get(p[0], p[0]), 'what': f"ORACLE-FAIL declaration {p[0]} ({cname}): {p[1]} {p[2][:300] if len(p) > 2 else ''}", 'signature': f"round trip / frame fails: {p[1]}"})
     # generic declarations over codec-encodable field types, under every feature at once and under the codecs alone
     cd = D.codec_decls()
-    for cfeat, ctag, cname in ((['dbg', 'gs', 'rh', 'da', 'ns', 'sd'], 'dc_codec_all', 'all features'), (['ns', 'sd'], 'dc_codec', 'features nanoserde + serde'), (None, 'dc_codec_none', 'default features')):
+    for cfeat, ctag, cname in ((['dbg', 'gs', 'rh', 'da', 'ns', 'sd'], 'dc_codec_all', 'all features'), (['ns', 'sd'], 'dc_codec', 'features nanoserde + serde'), (['ns'], 'dc_codec_ns', 'feature nanoserde'), (['sd', 'gs'], 'dc_codec_sd', 'features serde + generated_setters'), (None, 'dc_codec_none', 'default features')):
         tmp = Result(PROP, a.tier, a.seed)
         exe = build_decls(tmp, cd, ctag, features=cfeat, target_dir=os.path.join(WORK, 'target_dc_feat'))
         if not exe:
